@@ -105,6 +105,65 @@ def h_uid_step(a0: int, a1: int, a2: int, b0: int, b1: int, b2: int, t1: int, u1
     return run(body_uid_step, a0, a1, a2, b0, b1, b2, t1, u1, t2, u2, cond)
 
 
+
+# ------------------------------------------------------------------ histories through ONE long-lived store object
+def body_uid_history(a0, a1, a2, warm, d1, c1, t1, u1, d2, c2, t2, u2, d3, c3, t3, u3, d4, c4, t4, u4):
+    """A history of puts (conditional on the current etag or not) and deletes through ONE store object - the server
+    keeps one per collection - starting from an arbitrary valid state: every answer equals the specification's
+    (a put is refused as a duplicate exactly when ANOTHER live member holds its UID; a UID is free again as soon as
+    its holder is deleted or changes UID) and no two live members ever share a UID."""
+    kind = ctx.PART
+    n = ctx.b.n
+    S = _state([a0, a1, a2], n)
+    if not SP.invariant(S):
+        return (True, "pre-invalid")
+    Wm.reset()
+    mstore.install_state(kind, _store.PATH, S)
+    store = mstore.open_store(kind, _store.PATH)
+    if warm:
+        store._scan_uids()
+    names = NAMES[:n] + [FRESH]
+    cls = "warm" if warm else "cold"
+    for (dele, cond, t, u) in [(d1, c1, t1, u1), (d2, c2, t2, u2), (d3, c3, t3, u3), (d4, c4, t4, u4)][:ctx.b.hlen]:
+        name = names[t]
+        etag = mstore.expected_etag(kind, S[name]) if (cond and name in S) else None
+        if dele:
+            want, S2 = SP.delete(S, name)
+            try:
+                store.delete_one(name, message="m", etag=etag)
+                got = "ok"
+            except Exception as e:
+                got = _store.classify(e)
+            cls += ":d-" + want
+        else:
+            body = _content(u)
+            want, S2 = SP.put(S, name, body)
+            got = _put(store, name, body, etag)
+            cls += ":p-" + want
+        if got != want or not mstore.agrees(kind, mstore.observe(store), S2):
+            return (False, cls)
+        S = S2
+    seen = []
+    for nm, (etag, data) in mstore.observe(store).items():
+        u = SP.uid(nm, data)
+        if u is not None:
+            if u in seen:
+                return (False, cls)
+            seen.append(u)
+    return (True, cls)
+
+
+def h_uid_history(a0: int, a1: int, a2: int, warm: bool, d1: bool, c1: bool, t1: int, u1: int, d2: bool, c2: bool,
+                  t2: int, u2: int, d3: bool, c3: bool, t3: int, u3: int, d4: bool, c4: bool, t4: int, u4: int) -> bool:
+    """
+    pre: all(-1 <= v <= ctx.b.n + 2 for v in (a0, a1, a2))
+    pre: all(0 <= t <= ctx.b.n for t in (t1, t2, t3, t4)) and all(0 <= u <= ctx.b.n + 2 for u in (u1, u2, u3, u4))
+    pre: ctx.b.hlen >= 4 or (not d4 and not c4 and t4 == 0 and u4 == 0)
+    post: _
+    """
+    return run(body_uid_history, a0, a1, a2, warm, d1, c1, t1, u1, d2, c2, t2, u2, d3, c3, t3, u3, d4, c4, t4, u4)
+
+
 # ------------------------------------------------------------------ ICalendarFile.get_uid on component trees
 def body_get_uid(n_sub, has0, uid0, has1, uid1, has_top):
     from icalendar.cal import Calendar, Event, Todo
@@ -210,7 +269,7 @@ finally:
     return (ok, detail)
 
 
-_B = {"quick": {"n": 2, "two": False, "slen": 2}, "thorough": {"n": 3, "two": True, "slen": 3}}
+_B = {"quick": {"n": 2, "two": False, "slen": 2, "hlen": 3}, "thorough": {"n": 3, "two": True, "slen": 3, "hlen": 4}}
 
 HARNESSES = [
     Harness("uid_step", h_uid_step, body_uid_step,
@@ -223,6 +282,17 @@ HARNESSES = [
             encodes=["xandikos.store.git.GitStore._scan_uids", "xandikos.store.git.GitStore._check_duplicate",
                      "xandikos.store.git.GitStore.import_one", "xandikos.store.vdir.VdirStore._scan_uids",
                      "xandikos.store.vdir.VdirStore._check_duplicate", "xandikos.store.vdir.VdirStore.import_one"]),
+    Harness("uid_history", h_uid_history, body_uid_history,
+            classes=[("warm:d-ok:p-ok:p-duplicate", "bare"), ("cold:p-ok:d-ok:p-ok", "tree"), ("warm:p-ok:p-ok:d-ok", "vdir")],
+            parts={"quick": list(mstore.KINDS)}, bounds=_B, budget={"quick": 90, "thorough": 480},
+            twin_budget={"quick": 60, "thorough": 120},
+            describe="3 (quick) / 4 (thorough) puts and deletes, conditional or not, through one long-lived store object "
+                     "from an arbitrary valid state, uid maps warm or cold: every answer == spec (a UID is free again "
+                     "once its holder is deleted or changes UID), no two live members share a UID; part = back end",
+            encodes=["xandikos.store.git.GitStore._scan_uids", "xandikos.store.git.GitStore._check_duplicate",
+                     "xandikos.store.git.GitStore.import_one", "xandikos.store.git.BareGitStore.delete_one",
+                     "xandikos.store.git.TreeGitStore.delete_one", "xandikos.store.vdir.VdirStore._scan_uids",
+                     "xandikos.store.vdir.VdirStore.delete_one", "xandikos.store.vdir.VdirStore.import_one"]),
     Harness("get_uid", h_get_uid, body_get_uid, classes=["none", "first", "second"], bounds=_B,
             budget={"quick": 40, "thorough": 240},
             describe="ICalendarFile.get_uid == UID of the first sub-component that has one (symbolic UID strings)",
